@@ -231,11 +231,22 @@ PARTS = {
     "C14": dict(
         lean_files=["ConcVerif/Props/C14_lr.lean"], components=["lr_strict"],
         trusted_base=LR_TRUST, assumptions=LR_ASSUME,
-        partial=["lr_guarded: 'a writer completes once the handles are released' is proved as safety facts (counter exactness; a "
-                 "counter with nobody registered is observed at zero; second application enabled once both were; constructive "
+        partial=["lr_guarded: 'a writer completes once the handles are released' is proved as the safety facts (counter exactness; "
+                 "a counter with nobody registered is observed at zero; second application enabled once both were; constructive "
                  "3-step completion when nobody is registered; in strict mode wait iterations only on the counter closed to new "
                  "arrivals, which gains members only from readers that had loaded the counting flag before; holder always "
-                 "enabled; lock enabled when free); the fair-scheduler termination step is not mechanised"]),
+                 "enabled; lock enabled when free) PLUS, without any fairness assumption (Proof/LRLive.lean, relational form of "
+                 "Base/Live.lean): C14_lr_writer_terminates_partial / C14_lr_infinite_means_env_or_spin — every infinite execution "
+                 "contains, after every point, a client decision (call, read through a handle) or an idle step of the holder of the "
+                 "write mutex (wait iteration, yield, redundant load; the only steps that do not lower the rank, "
+                 "C14_lr_idle_step_is_spin); C14_lr_spin_fails_only_registered — a wait iteration happens only while a reader is "
+                 "registered in that counter; C14_lr_stuck_means_handles_held / C14_lr_stuck_no_handle_all_returned — when no thread "
+                 "can make a progress step, every thread inside a call is a client keeping a read handle, a writer waiting for a "
+                 "counter all of whose registered readers are such clients, or a modify waiting for the mutex of such a writer. A "
+                 "fairness-free 'modify terminates' is false (C14_lr_spin_can_go_on_for_ever: with a handle kept, the wait iteration is "
+                 "a self-loop of the state), so the name carries `_partial`. NOT proved: that the writer's wait ends when registered "
+                 "readers are mid-acquisition / mid-release but never scheduled (needs a fair scheduler), and starvation of one "
+                 "modify by infinitely many others under an unfair mutex"]),
     "C20": dict(
         lean_files=["ConcVerif/Props/C20_lr.lean"], components=["lr"],
         trusted_base=LR_TRUST, assumptions=LR_ASSUME,
